@@ -90,7 +90,8 @@ fn read_index_file<T: Read>(mut source: T) -> Result<Vec<ShapeIndex>, Error> {
     // the header means there is no entry.
     let num_shapes = ((i64::from(header.file_length) * 2) - i64::from(header::HEADER_SIZE)).max(0)
         / INDEX_RECORD_SIZE as i64;
-    let mut shapes_index = Vec::<ShapeIndex>::with_capacity(num_shapes as usize);
+    // (no allocation sized from that length: it is not backed by data yet)
+    let mut shapes_index = Vec::<ShapeIndex>::with_capacity((num_shapes as usize).min(1024));
     for _ in 0..num_shapes {
         let offset = source.read_i32::<BigEndian>()?;
         let record_size = source.read_i32::<BigEndian>()?;
